@@ -154,3 +154,27 @@ def drop_matching(fn, *markers):
             return False
         return any(m in first for m in markers)
     return drop
+
+
+def drop_outside(fn, first_marker, last_marker):
+    """Window slice: keep only the top-level statements from the first one whose text contains `first_marker` up to and including the
+    first one (at or after it) whose text contains `last_marker`; everything before and after is dropped. Locals established by the
+    dropped prefix are declared by the contract as (arbitrary) ghost parameters; the contract observes locals through `_local_<name>`."""
+    from .engine import FuncSource
+    src = FuncSource.of(fn)
+    lo = hi = None
+    for st in src.node.body:
+        txt = ast.unparse(st)
+        if lo is None and first_marker in txt:
+            lo = st.lineno
+        if lo is not None and hi is None and last_marker in txt:
+            hi = st.end_lineno
+            break
+    if lo is None or hi is None:
+        raise ValueError("window markers %r .. %r not found in %s" % (first_marker, last_marker, fn))
+
+    def drop(node):
+        return isinstance(node, ast.stmt) and node in src.node.body and not (lo <= node.lineno <= hi)
+
+    drop.window = (first_marker, last_marker)
+    return drop
